@@ -1213,6 +1213,46 @@ def r9_compare_by_interpretation(rep, src, tier):
         rep.fail('C03.R9', cmpf.site, 'the order of dpkg on a family of versions (interpreted)', bad, where=cmpf.where)
     else:
         rep.ok('C03.R9', cmpf.site, 'the order of dpkg on a family of versions (interpreted)', '%d ordered pairs of %d versions' % (n, len(FAMILY)))
+    # the six operators and version_compare(), interpreted on the same objects / the same strings: each operator answers as the
+    # order says, version_compare gives exactly -1 / 0 / 1 -- however they reach the comparison
+    import operator as _op
+    OPS = {'__lt__': _op.lt, '__le__': _op.le, '__eq__': _op.eq, '__ne__': _op.ne, '__ge__': _op.ge, '__gt__': _op.gt}
+    sample = [(a, b) for k_, (a, b) in enumerate(itertools.product(FAMILY, repeat=2)) if tier == 'thorough' or k_ % 7 == 0 or a == b]
+    bad_op = None
+    for name, pyop in OPS.items():
+        f = mod.method('NativeVersion', name)
+        if f is None:
+            raise AnalysisError('%s:NativeVersion.%s not found' % (M, name))
+        for a, b in sample:
+            try:
+                r = it.call(H.Closure(f.node, {}, objs[a], f.cls), [objs[b]])
+            except H.Raised as x:
+                r = 'raises %s' % x.exc
+            want = pyop(ref(a, b), 0)
+            if (r is not want) and bad_op is None:
+                bad_op = (f, 'Version(%r).%s(Version(%r)) %s; by the order of dpkg it is %s' % (a, name, b, r if isinstance(r, str) else 'gives %r' % (r,), want))
+    if bad_op:
+        rep.fail('C03.R9', bad_op[0].site, 'the comparison operators answer as the order says (interpreted)', bad_op[1], where=bad_op[0].where)
+    else:
+        rep.ok('C03.R9', '%s:BaseVersion' % M, 'the comparison operators answer as the order says (interpreted)', '6 operators on %d pairs' % len(sample))
+    vc = mod.funcs.get('version_compare')
+    if vc is None:
+        raise AnalysisError('%s:version_compare not found' % M)
+    rep.saw_func(vc)
+    heap.class_alias = dict(getattr(heap, 'class_alias', None) or {}, Version='NativeVersion')          # (the pure-Python implementation is the one the statement is about)
+    bad_vc = None
+    for a, b in sample:
+        try:
+            r = it.call(H.Closure(vc.node, {}, None, None), [a, b])
+        except H.Raised as x:
+            r = 'raises %s' % x.exc
+        want = ref(a, b)
+        if not (isinstance(r, int) and not isinstance(r, bool) and r == want) and bad_vc is None:
+            bad_vc = 'version_compare(%r, %r) %s; the order of dpkg gives %d' % (a, b, r if isinstance(r, str) else 'gives %r' % (r,), want)
+    if bad_vc:
+        rep.fail('C03.R9', vc.site, 'version_compare gives -1 / 0 / 1 as the order says (interpreted)', bad_vc, where=vc.where)
+    else:
+        rep.ok('C03.R9', vc.site, 'version_compare gives -1 / 0 / 1 as the order says (interpreted)', '%d pairs' % len(sample))
 
 
 def check(src, rep, tier):
@@ -1238,11 +1278,13 @@ def check(src, rep, tier):
     rep.guard('C03.R7', C14.r4_family, src, tier, 'C03.R7', ('rej',))
     fam_holds = len(rep.violations) == n_v and len(rep.errors) == n_e
     common.SoftErrors(rep, lambda: fam_holds, 'the interpreted family of version strings, which holds').guard('C03.R7', C14.r1_accepted_set, src, 'C03.R7', True)
-    rep.guard('C03.R1', r1_operators, src)
     rep.need('C03.R9', 1)
     n_v, n_e = len(rep.violations), len(rep.errors)
     rep.guard('C03.R9', r9_compare_by_interpretation, src, tier)
     order_holds = len(rep.violations) == n_v and len(rep.errors) == n_e
+    # (how the operators and version_compare are written: a second opinion behind the interpreted ones)
+    soft1 = common.SoftAll(rep, lambda: order_holds, 'the interpreted operators and version_compare (C03.R9), which answer as the order of dpkg says')
+    soft1.guard('C03.R1', r1_operators, src)
     # (the path-level readings of the comparison routines: exact for ALL versions when the routines are in their vocabulary)
     soft = common.SoftErrors(rep, lambda: order_holds, 'the interpreted comparisons of a family of versions (C03.R9), which agree with dpkg')
     soft.guard('C03.R2', r2_compare, src)
